@@ -213,7 +213,7 @@ impl TypedProp for C01 {
     fn info(&self) -> PropInfo {
         PropInfo {
             level: "exploration",
-            rule: "configs: grammar-generated from the whole action grammar (layers, all tap-hold variants, tap-dance, one-shot variants, chords v1/v2, all macro variants, fork/switch, multi, release-key/layer, unmod, caps-word, mouse buttons/wheel/move, sequences, overrides, zippychord, virtual keys in balanced use only: tap, paired press/release, hold-for-duration, on-idle tap) with small timeouts; plus capacity configs (33-40 keys pressed within one tick, > 64 states, > 8 tap-holds, > 16 one-shots, > 4 macros). Histories: physically consistent press/release/repeat with gaps at T-1/T/T+1 of every timeout, every pressed key released. Oracle (invariant): after the settle bound S = sum(timeouts)+macro lengths+1200 ticks, for 300 further ticks: no key or mouse button down at the OS, no further output of any kind, is_idle() and the can-block decision true. Non-trivial: an output press happened and a probe saw a pending decision, an active one-shot, a running macro, sequence mode, a pending v2 chord or a capacity limit. Distinct: hash of (config, history).",
+            rule: "configs: grammar-generated from the whole action grammar (layers, all tap-hold variants, tap-dance, one-shot variants, chords v1/v2, all macro variants, fork/switch, multi, release-key/layer, unmod, caps-word, mouse buttons/wheel/move, sequences, overrides, zippychord, virtual keys in balanced use only: tap, paired press/release, hold-for-duration, on-idle tap) with small timeouts; plus capacity configs (33-40 keys pressed within one tick, > 64 states, > 8 tap-holds, > 16 one-shots, > 4 macros). Histories: physically consistent press/release/repeat with gaps at T-1/T/T+1 of every timeout, every pressed key released. Oracle (invariant): after the settle bound S = sum(timeouts)+macro lengths+1200 ticks, for 300 further ticks (300 + the sum of the configured timeouts for zippychord configurations and one case in eight of the others: idle has to last): no key or mouse button down at the OS, no further output of any kind, is_idle() and the can-block decision true. Non-trivial: an output press happened and a probe saw a pending decision, an active one-shot, a running macro, sequence mode, a pending v2 chord or a capacity limit. Distinct: hash of (config, history).",
             assumptions: vec![
                 "latching constructs (press-vkey / toggle-vkey without release, dynamic macro recording, live reload) are excluded by construction, as the statement allows".into(),
                 "the loop is emulated by calling can_block_update_idle_waiting(1) after every 1 ms tick (blocking disabled), which is what makes on-idle actions run".into(),
@@ -408,7 +408,11 @@ impl TypedProp for C01 {
         let mut not_idle_at: Option<u64> = None;
         let mut cannot_block_at: Option<u64> = None;
         let mut n_before = sim.outs.len();
-        while settle < hard_bound && quiet < 300 {
+        // Idle must also last: with zippychord configured (its deadline and reactivation timers run on
+        // after the last release) and for one case in eight of the others the quiet period has to be as
+        // long as the configured timeouts add up to, not just 300 ticks.
+        let quiet_needed: u64 = if case.cfg.contains("(defzippy") || case.events.len() % 8 == 0 { 300 + case.settle_hint.min(2500) } else { 300 };
+        while settle < hard_bound && quiet < quiet_needed {
             settle += 1;
             let before = if settle < 3000 { Some(customs(&sim)) } else { None };
             let n0 = sim.outs.len();
@@ -440,7 +444,7 @@ impl TypedProp for C01 {
                 cannot_block_at = if cb { None } else { Some(settle) };
             }
         }
-        let settled = quiet >= 300;
+        let settled = quiet >= quiet_needed;
         if settled {
             not_idle_at = None;
             cannot_block_at = None;
